@@ -33,6 +33,7 @@ PINS = {
     'collections.py::CollectionBase.__init__': '998def96113cc433',
     'utils/functions.py::is_sub_list': 'a65933a1f69295ee',            # SrcRelate: the model's `isSubList`
     '_geometry.py::do_edges_intersect': 'c6c432c7d6b4dfad',
+    '_base.py::BaseShapeProtocol.copy': '0da86b9aedc16b8e',            # SrcMut: abstract in the protocol (= the model's `copy`)
     '_geometry.py::ensure_edge_bounds': 'a705a05bf476cf50',                    # SrcCalc: the model's `ensureEdge`          # SrcRelate: the model's sweep (tied by C02's streams)
 }
 
@@ -185,7 +186,52 @@ def coll_unit():
         Inst('FeatureCollection.__add__', 'fcAddTrack', [('self', 'GV.Coll'), ('other', 'TrackA')], 'Except GV.Coll'),
         Inst('Track.__add__', 'trackAddTrack', [('self', 'GV.Coll'), ('other', 'TrackA')], 'Except GV.Coll'),
         Inst('Track.__add__', 'trackAddFc', [('self', 'GV.Coll'), ('other', 'FCA')], 'Except GV.Coll'),
+        # the list protocol: every method hands the question to the list `self.geoshapes`
+        Inst(f'{C}.__contains__', 'contains', [('self', 'GV.Coll'), ('item', 'Item')], 'Bool'),
+        Inst(f'{C}.__iter__', 'iter', [('self', 'GV.Coll')], 'List GV.Coll.Shape'),
+        Inst(f'{C}.__len__', 'len', [('self', 'GV.Coll')], 'Nat'),
+        Inst('FeatureCollection.__iter__', 'fcIter', [('self', 'GV.Coll')], 'List GV.Coll.Shape'),
+        Inst('FeatureCollection.__len__', 'fcLen', [('self', 'GV.Coll')], 'Nat'),
+        Inst('FeatureCollection.__getitem__', 'fcGetIdx', [('self', 'GV.Coll'), ('item', 'Int')], 'Except GV.Coll.Shape'),
+        Inst('FeatureCollection.__getitem__', 'fcGetSlice', [('self', 'GV.Coll'), ('item', 'Slice3')],
+             'Except List GV.Coll.Shape'),
+        Inst('FeatureCollection.__eq__', 'fcEqFc', [('self', 'GV.Coll'), ('other', 'FCA')], 'Bool'),
+        Inst('FeatureCollection.__eq__', 'fcEqTrack', [('self', 'GV.Coll'), ('other', 'TrackA')], 'Bool'),
+        Inst('FeatureCollection.__eq__', 'fcEqOther', [('self', 'GV.Coll'), ('other', 'Query')], 'Bool'),
     ]
+    py2lean.LEAN_TYPE.setdefault('Item', 'GV.Coll.Shape')
+    py2lean.LEAN_TYPE.setdefault('Slice3', 'Option Int × Option Int × Option Int')
+
+    SH = 'List GV.Coll.Shape'
+
+    def list_method(tr, recv, attr, args):
+        # the dunder methods of the builtin `list` that the collection delegates to, read as the model's list functions
+        # (negative indices, slices with a step, IndexError: `getIdx` / `getSlice` on the bare list)
+        if recv.typ != SH:
+            return None
+        if attr == '__iter__' and not args:
+            return Val(recv.text, SH)
+        if attr == '__len__' and not args:
+            return Val(f'({recv.text}).length', 'Nat')
+        if attr == 'copy' and not args:
+            return Val(recv.text, SH)
+        if attr == '__getitem__' and len(args) == 1:
+            a = tr.expr(args[0])
+            if a.typ == 'Int':
+                v = Val(f'(GV.Coll.getIdx (GV.Coll.mkFC {recv.text}) {a.text})', 'GV.Coll.Shape')
+            elif a.typ == 'Slice3':
+                v = Val(f'(GV.Coll.getSlice (GV.Coll.mkFC {recv.text}) {a.text}.1 {a.text}.2.1 {a.text}.2.2)', SH)
+            else:
+                raise Unsupported(f'list.__getitem__ at {a.typ}')
+            v.raises = True
+            return v
+        return None
+
+    def list_eq(tr, a, b):
+        # `xs == ys` on lists of shapes: same length and pairwise `x is y or x == y`
+        if a.typ == b.typ == SH:
+            return Val(f'(GV.Coll.listEq {a.text} {b.text})', 'Bool')
+        return None
     py2lean.LEAN_TYPE.setdefault('Str', 'String')
     py2lean.LEAN_TYPE.setdefault('PVal', 'GV.Coll.PVal')
     py2lean.LEAN_TYPE.setdefault('Props', 'List (String × GV.Coll.PVal)')
@@ -224,6 +270,8 @@ def coll_unit():
         ('GV.Coll.Shape', 'intersects', ('Query',)): ('xi {0}', 'Bool'),
         ('GV.Coll.Shape', 'contains', ('Query',)): ('xc {0}', 'Bool'),
         ('Query', 'contains', ('GV.Coll.Shape',)): ('qc {1}', 'Bool'),
+        # `item in self.geoshapes`: the list's membership test is `x is item or x == item`
+        ('List GV.Coll.Shape', '__contains__', ('Item',)): ('({0}).any (GV.Coll.sameOrEq {1})', 'Bool'),
     }
     py2lean.LEAN_TYPE.setdefault('Query', 'Unit')
     return Unit('SrcColl', src, 'GV.Src.Coll', ['GeoVerif.Gen.SrcTime', 'GeoVerif.Model.Collection', 'GeoVerif.Model.PyPrelude'], insts,
@@ -237,6 +285,7 @@ def coll_unit():
                             ('GV.Coll.Shape', 'dt'): ('{}.dt', 'Opt TI'), ('Query', 'dt'): ('qdt', 'Opt TI')},
                 intrinsics={'default_to_zulu': zulu, 'FeatureCollection': fc_ctor, 'Track': track_ctor},
                 hooks={'isinstance': isinstance_hook, 'type_ctor': type_ctor, 'always_truthy': ('TI', 'Dt'),
+                       'method': list_method, 'eq': list_eq,
                        'local_type': lambda qual, name: {('CollectionBase.filter_by_property', 'filtered_shapes'):
                                                          'List GV.Coll.Shape'}.get((qual, name))},
                 ctx_params=[('qdt', 'Option GV.TI'), ('xi', 'GV.Coll.Shape → Bool'), ('xc', 'GV.Coll.Shape → Bool'),
@@ -1066,6 +1115,96 @@ def bounds_unit():
                 hooks={'isinstance': lambda typ: None, 'method': method, 'subscript': subscript, 'keywords': kw})
 
 
+# ----------------------------------------------------------------------------------------------------------
+# geostructures/_base.py :: BaseShapeProtocol — the updating methods and the observations they feed   (C16)
+#
+# a shape is a *reference* (`ORef`, a Nat) into the activation `fr : GV.OS.Act G H W` (Model/ObjAct.lean: the heap of
+# Model/ObjState.lean + the shape records in scope, the receiver at reference 0) that every definition receives;
+# `x.copy()` (abstract in the protocol, pinned as such) is the model's `copy` bound to a new reference; the stores
+# `x.dt = v`, `x._properties[k] = v` rebind the activation; an updating method returns (activation, reference).
+# `self.area` is the memoised area as a function `areaOf` of the inputs it was computed from, `total_seconds` is `secs`.
+
+def mut_unit():
+    src = py2lean.Source(_repo('_base.py'))
+    B = 'BaseShapeProtocol'
+    S, U = ('self', 'ORef'), 'Except Upd'
+    IP = ('inplace', 'Bool')
+    insts = [
+        Inst(f'{B}.start', 'startDt', [S], 'Except Dt'),
+        Inst(f'{B}.end', 'endDt', [S], 'Except Dt'),
+        Inst(f'{B}.properties', 'properties', [S], 'Except RDict'),
+        Inst('PolygonLikeMixin.volume', 'volume', [S], 'N'),
+        Inst(f'{B}.set_dt', 'setDtNone', [S, ('dt', 'None'), IP], U),
+        Inst(f'{B}.set_dt', 'setDtTI', [S, ('dt', 'TI'), IP], U),
+        Inst(f'{B}.set_dt', 'setDtDt', [S, ('dt', 'Dt'), IP], U),
+        Inst(f'{B}.buffer_dt', 'bufferDt', [S, ('buffer', 'Td'), IP], U),
+        Inst(f'{B}.strip_dt', 'stripDt', [S, IP], U),
+        Inst(f'{B}.set_property', 'setProperty', [S, ('key', 'Str'), ('value', 'PArg'), IP], U),
+        # `inplace` left at its default
+        Inst(f'{B}.set_dt', 'setDtNoneDefault', [S, ('dt', 'None')], U, doc='`inplace` left at its default'),
+        Inst(f'{B}.set_dt', 'setDtTIDefault', [S, ('dt', 'TI')], U, doc='`inplace` left at its default'),
+        Inst(f'{B}.set_dt', 'setDtDtDefault', [S, ('dt', 'Dt')], U, doc='`inplace` left at its default'),
+        Inst(f'{B}.buffer_dt', 'bufferDtDefault', [S, ('buffer', 'Td')], U, doc='`inplace` left at its default'),
+        Inst(f'{B}.strip_dt', 'stripDtDefault', [S], U, doc='`inplace` left at its default'),
+        Inst(f'{B}.set_property', 'setPropertyDefault', [S, ('key', 'Str'), ('value', 'PArg')], U,
+             doc='`inplace` left at its default'),
+    ]
+    # an observation must be recomputed on every read (a memoised one goes stale under the updates: that is C16), an
+    # updating method must be the plain function
+    for i in insts:
+        want = ['property'] if i.value_type != 'Upd' else []
+        if src.decorators(i.qual) != want:
+            raise Unsupported(f'`{i.qual}` is decorated {src.decorators(i.qual)}, the unit reads it as {want or "a plain method"}')
+    py2lean.LEAN_TYPE.setdefault('Str', 'String')
+    py2lean.LEAN_TYPE.setdefault('N', 'α')
+    py2lean.LEAN_TYPE.setdefault('ORef', 'Nat')
+    py2lean.LEAN_TYPE.setdefault('DictRef', 'Nat')
+    py2lean.LEAN_TYPE.setdefault('Upd', 'GV.OS.Act G H W × Nat')
+    py2lean.LEAN_TYPE.setdefault('PArg', 'GV.OS.PArg')
+    py2lean.LEAN_TYPE.setdefault('RDict', 'List (String × GV.OS.RVal)')
+
+    def isinstance_hook(typ):
+        return {'Dt': {'datetime'}, 'Td': {'timedelta'}, 'TI': {'TimeInterval'}, 'None': set(),
+                'ORef': {'BaseShapeProtocol', 'BaseShape', 'GeoShape'}}.get(typ)
+
+    def zulu(tr, args):
+        if args[-1].typ != 'Dt':
+            raise Unsupported(f'default_to_zulu applied to {args[-1].typ}')
+        return Val(args[-1].text, 'Dt')
+
+    def method(tr, recv, attr, args):
+        if recv.typ == 'ORef' and attr == 'copy' and not args:
+            return tr.effect(f'GV.OS.Act.copyOf {tr.frame()} {recv.text}', 'ORef')
+        if recv.typ == 'DictRef' and attr == 'copy' and not args and recv.path and recv.path.endswith('._properties'):
+            # `x._properties.copy()`: a dict *value*; the only way this unit reads the property dict
+            return Val(f'(GV.OS.Act.propsCopy {tr.frame()} {recv.text})', 'RDict')
+        return None
+
+    frame = {
+        'name': 'fr', 'result': 'Upd', 'ref': 'ORef',
+        'getattr': {('ORef', 'dt'): ('(GV.OS.Act.dt {fr} {0})', 'Opt TI'),
+                    ('ORef', '_properties'): ('{0}', 'DictRef'),
+                    ('ORef', 'area'): ('(areaOf (GV.OS.Act.areaStamp {fr} {0}))', 'N')},
+        'setattr': {('ORef', 'dt', 'None'): 'GV.OS.Act.setDt {fr} {0} none',
+                    ('ORef', 'dt', 'TI'): 'GV.OS.Act.setDt {fr} {0} (some {1})',
+                    ('ORef', 'dt', 'Opt TI'): 'GV.OS.Act.setDt {fr} {0} {1}'},
+        'setitem': {('ORef', '_properties', 'Str', 'PArg'): 'GV.OS.Act.setProp {fr} {0} {1} {2}'},
+        'setlocal': {('RDict', 'Str', 'Dt'): 'GV.OS.rdictPut {0} {1} (GV.OS.RVal.atom {2})'},
+    }
+    return Unit('SrcMut', src, 'GV.Src.Mut', ['GeoVerif.Gen.SrcTime', 'GeoVerif.Model.ObjAct'], insts,
+                {'ORef': B, 'TI': 'TimeInterval'},
+                header='open GV Num\nvariable {G H W : Type} {α : Type} [Num α]',
+                pins={'utils/functions.py::default_to_zulu': PINS['utils/functions.py::default_to_zulu'],
+                      f'{B}.copy': PINS['_base.py::BaseShapeProtocol.copy']},
+                attr_types={('TI', 'start'): ('{}.start', 'Dt'), ('TI', 'end'): ('{}.stop', 'Dt')},
+                intrinsics={'default_to_zulu': zulu},
+                abstract={('Td', 'total_seconds', ()): ('secs {0}', 'N')},
+                hooks={'isinstance': isinstance_hook, 'always_truthy': ('TI', 'Dt'), 'method': method, 'frame': frame,
+                       'str_const': True, 'float_as_int': True},
+                ctx_params=[('fr', 'GV.OS.Act G H W'), ('areaOf', 'GV.OS.Stamp H W → α'), ('secs', 'Int → α')],
+                externals=_time_externals())
+
+
 UNITS = {'SrcTime': time_unit, 'SrcBase': base_unit, 'SrcMulti': multi_unit, 'SrcColl': coll_unit, 'SrcPip': pip_unit,
          'SrcMember': member_unit, 'SrcTrack': track_unit, 'SrcRelate': relate_unit, 'SrcCoord': coord_unit,
          'SrcCurved': curved_unit, 'SrcCalc': calc_unit}
@@ -1074,6 +1213,7 @@ UNITS['SrcHull'] = hull_unit
 UNITS['SrcHullPoly'] = hullpoly_unit
 UNITS['SrcHullMulti'] = hullmulti_unit
 UNITS['SrcBounds'] = bounds_unit
+UNITS['SrcMut'] = mut_unit
 
 
 def render(name):
